@@ -43,7 +43,7 @@ fn range(u: &mut Unstructured) -> RangeSpec {
 fn script(u: &mut Unstructured, wide: bool) -> Vec<Step> {
     let n = u.int_in_range(0usize..=8).unwrap_or(0);
     (0..n)
-        .map(|_| match u.int_in_range(0u8..=if wide { 16 } else { 4 }).unwrap_or(0) {
+        .map(|_| match u.int_in_range(0u8..=if wide { 18 } else { 4 }).unwrap_or(0) {
             0 | 1 => Step::Next,
             2 | 3 => Step::NextBack,
             4 => Step::Dbg,
@@ -58,6 +58,8 @@ fn script(u: &mut Unstructured, wide: bool) -> Vec<Step> {
             13 => Step::RFold,
             14 => Step::RevLast,
             15 => Step::Search,
+            16 => Step::FindMid,
+            17 => Step::RFindMid,
             _ => Step::RevCollect,
         })
         .collect()
